@@ -3,6 +3,7 @@
 package ddsketch
 
 import (
+	"github.com/DataDog/sketches-go/ddsketch/mapping"
 	"github.com/DataDog/sketches-go/ddsketch/stat"
 	"github.com/DataDog/sketches-go/ddsketch/store"
 )
@@ -179,4 +180,73 @@ func ZZ_C02_sketch_merge_zero_bucket_only_argument() {
 	zzvAssert("bins-unchanged", zzvAnd(store.ZZAbs(s.positiveValueStore, p) == store.ZZAbs(g.pos, p), store.ZZAbs(s.negativeValueStore, p) == store.ZZAbs(g.neg, p)))
 	zzvAssert("argument-unchanged", zzvAnd(e.zeroCount == z, zzvAnd(e.positiveValueStore.IsEmpty(), e.negativeValueStore.IsEmpty())))
 	zzvAssert("empty-iff-no-weight", s.IsEmpty() == (s.GetCount() == 0))
+}
+
+// C07/C06 (round 2): index deltas and strides are 64-bit varints. Two valid int32 indexes can be almost
+// 2^32 apart, so the delta between successive bins of a block does not fit 32 bits although every index does.
+func zzC07WideDeltas(dstKind int) {
+	zzvBound("wide index deltas", "reference-encoded bin blocks (layouts: index deltas with counts, index deltas with unit counts, contiguous counts with a stride) holding two bins at symbolic indexes i1 in [-2147483000,-1100000000] and i2 in [1100000000, 2147483000] (delta and stride beyond 2^31), decoded by the real decoder into a sparse store (all layouts) or a paginated store (unit counts: no page is allocated)")
+	zzvExactFloatsOnly()
+	i1 := zzvIntIn("i1", -2147483000, -1100000000)
+	i2 := zzvIntIn("i2", 1100000000, 2147483000)
+	g := &zzSrc{}
+	var out []byte
+	layout := zzvChoose("layout", 3)
+	if dstKind == 2 {
+		layout = 1
+	}
+	switch layout {
+	case 0:
+		out = append(out, 1|1<<2)
+		out = zzPutUvarint(out, 2)
+		out = zzPutVarfloat(zzPutVarint(out, int64(i1)), 2)
+		out = zzPutVarfloat(zzPutVarint(out, int64(i2-i1)), 0.5)
+		g.idx, g.w = []int{i1, i2}, []float64{2, 0.5}
+	case 1:
+		out = append(out, 1|2<<2)
+		out = zzPutUvarint(out, 2)
+		out = zzPutVarint(zzPutVarint(out, int64(i1)), int64(i2-i1))
+		g.idx, g.w = []int{i1, i2}, []float64{1, 1}
+	default:
+		out = append(out, 1|3<<2)
+		out = zzPutUvarint(out, 2)
+		out = zzPutVarint(zzPutVarint(out, int64(i1)), int64(i2-i1))
+		out = zzPutVarfloat(zzPutVarfloat(out, 3), 1)
+		g.idx, g.w = []int{i1, i2}, []float64{3, 1}
+	}
+	m, _ := mapping.NewLogarithmicMapping(1e-7)
+	zzvCover("stream")
+	dst, err := DecodeDDSketch(out, zzProvider(dstKind), m)
+	zzvAssert("well-formed-stream-with-wide-delta-accepted", err == nil)
+	zzvAssert("positive-content", zzHoldsExactly(dst.positiveValueStore, g, 1))
+	zzvAssert("negative-side-empty", dst.negativeValueStore.IsEmpty())
+}
+func ZZ_C07_wide_deltas_into_sparse() { zzC07WideDeltas(0) }
+func ZZ_C07_wide_deltas_into_pag()    { zzC07WideDeltas(2) }
+func ZZ_C06_wide_deltas_into_sparse() { zzC07WideDeltas(0) }
+
+// C06 (round 2): FRACTIONAL weights that happen to sum to the number of non-empty bins (0.5+1.5,
+// 0.25+0.75+2; reachable by Reweight(0.5) of weights 1 and 3) survive the round trip bin by bin,
+// from every source kind into every target kind
+func ZZ_C06_roundtrip_fractional_weights_summing_to_bin_count() {
+	zzvBound("fractional weights", "source kinds {sparse, dense, paginated, lowest-collapsing}, 2 or 3 non-contiguous bins at a base index from {-40, 0, 1000} with weights {0.5,1.5}, {0.25,0.75,2} or {1.5,0.5,1}; targets {sparse, dense, paginated}; mapping embedded")
+	m := zzRealMapping(0)
+	srcKind, dstKind := zzvChoose("srcKind", 4), zzvChoose("dstKind", 3)
+	src := NewDDSketch(m, zzProvider(srcKind)(), zzProvider(srcKind)())
+	base := []int{-40, 0, 1000}[zzvChoose("base", 3)]
+	ws := [][]float64{{0.5, 1.5}, {0.25, 0.75, 2}, {1.5, 0.5, 1}}[zzvChoose("weights", 3)]
+	g := &zzSrc{}
+	for k, w := range ws {
+		idx := base + []int{0, 2, 7}[k]
+		src.positiveValueStore.AddWithCount(idx, w)
+		g.idx, g.w = append(g.idx, idx), append(g.w, w)
+	}
+	b := []byte{}
+	src.Encode(&b, false)
+	zzvCover("encoded")
+	dst, err := DecodeDDSketch(b, zzProvider(dstKind), nil)
+	zzvAssert("decode-ok", err == nil)
+	zzvAssert("bin-weights-survive", zzHoldsExactly(dst.positiveValueStore, g, 1))
+	ref, ok := zzRefDecode(b)
+	zzvAssert("reference-decoder-agrees", ok && zzRefTotal(ref.pos) == g.total())
 }
